@@ -3,6 +3,7 @@ from ..core import Rule
 from ..prog import *
 from ..facts import AnalysisBroken
 from .. import bufmodel
+from .. import evbmodel
 from . import C13
 
 UNITS = None   # E3 needs every unit
@@ -145,4 +146,5 @@ def run(ctx, config):
                 if fn.file not in OWNER_FILES:
                     r3.bad("K2:%s:writes-%s" % (fn.name, l[2]), el.where(), fn.name, "%s is written outside buffer.c: %s" % (l[2], show(el.e)[:60]))
     rules.append(r3)
+    rules.append(evbmodel.rule_model(P, "C12-model"))
     return rules
